@@ -7,7 +7,7 @@ CONSTANTS
   MaxChunks = 4
   MaxChunk = 3
   ReadSizes = {0, 1, 2, 3}
-  MaxHist = 8
+  MaxHist = 7
   MaxConds = 1
   OneShots = {"err"}
   CloseErrs = {FALSE, TRUE}
